@@ -1253,7 +1253,7 @@ pub fn run(ctx: &mut Ctx) {
     }
     let Some(env) = setup(ctx) else { return };
     // objects per shard: native (quick, thorough), asan, miri, valgrind
-    let n = ctx.stage_budget((32_000, 480_000), 24_000, 0, 80);
+    let n = ctx.stage_budget((32_000, 1_500_000), 24_000, 0, 80);
     let mut rng = ctx.rng("objects");
     // valgrind: one round over the kinds per shard, started at different kinds
     let offset = if ctx.stage == Stage::Valgrind { (ctx.shard as usize * 3) % KINDS.len() } else { 0 };
